@@ -284,22 +284,30 @@ structure VerifyDelShared (c : SolCtx) (flags : Nat) : Prop where
   redeem : ∀ r stack2, Consensus.evalScript (specChk chk) [] c.solutionScript (Flags.ofBits flags) (specTx c.tx) .base = .ok (r :: stack2) →
     SigDelShared chk ⟨r, c.tx, andNot (baseFlags flags) VERIFY_P2SH, false⟩ stack2
 
+/-- the (up to) three base-version VMs of one `check_solution` call agree with `EvalScript`: scriptSig, scriptPubKey on
+the stack the scriptSig left, redeem script on the rest of that stack -/
+structure VerifyAgree (c : SolCtx) (flags : Nat) : Prop where
+  sig : EvalAgree chk ⟨c.solutionScript, c.tx, baseFlags flags, false⟩ []
+  spk : ∀ stackCopy, Consensus.evalScript (specChk chk) [] c.solutionScript (Flags.ofBits flags) (specTx c.tx) .base = .ok stackCopy →
+    EvalAgree chk ⟨c.puzzleScript, c.tx, baseFlags flags, false⟩ stackCopy
+  redeem : ∀ r stack2, Consensus.evalScript (specChk chk) [] c.solutionScript (Flags.ofBits flags) (specTx c.tx) .base = .ok (r :: stack2) →
+    EvalAgree chk ⟨r, c.tx, andNot (baseFlags flags) VERIFY_P2SH, false⟩ stack2
+
+theorem VerifyAgree.of_delShared (hchk : ChkWF chk) (c : SolCtx) (flags : Nat) (h : VerifyDelShared chk c flags) :
+    VerifyAgree chk c flags where
+  sig := evalScript_eq_all chk _ (by rw [strip_minimalif]; exact id) (by rw [strip_wpk]; exact id) hchk [] h.sig
+  spk := fun sc hs => evalScript_eq_all chk _ (by rw [strip_minimalif]; exact id) (by rw [strip_wpk]; exact id) hchk sc (h.spk sc hs)
+  redeem := fun r s2 hs => evalScript_eq_all chk _ (by rw [strip_minimalif_p2sh]; exact id) (by rw [strip_wpk_p2sh]; exact id)
+    hchk s2 (h.redeem r s2 hs)
+
 /-- a base-version loop pass of `check_solution` against `EvalScript` under the caller's flags -/
-theorem runStage_base (hchk : ChkWF chk) (c : SolCtx) (flags fl : Nat) (puzzle : Bytes) (stackPy : List Bytes)
+theorem runStage_base (c : SolCtx) (flags fl : Nat) (puzzle : Bytes) (stackPy : List Bytes)
     (hfl : fl = baseFlags flags ∨ fl = andNot (baseFlags flags) VERIFY_P2SH)
-    (hdel : SigDelShared chk ⟨puzzle, c.tx, fl, false⟩ stackPy.reverse) :
+    (he : EvalAgree chk ⟨puzzle, c.tx, fl, false⟩ stackPy.reverse) :
     (runStage (stdEnv chk) c ⟨puzzle, stackPy, fl, false⟩).toOption =
       (Consensus.evalScript (specChk chk) stackPy.reverse puzzle (Flags.ofBits flags) (specTx c.tx) .base).toOption.bind
         (fun stk => if truthy stk then some stk.reverse else none) := by
-  have hw : hasFlag fl VERIFY_MINIMALIF = true → false = true := by
-    rcases hfl with rfl | rfl
-    · rw [strip_minimalif]; exact id
-    · rw [strip_minimalif_p2sh]; exact id
-  have hwp : hasFlag fl VERIFY_WITNESS_PUBKEYTYPE = true → false = true := by
-    rcases hfl with rfl | rfl
-    · rw [strip_wpk]; exact id
-    · rw [strip_wpk_p2sh]; exact id
-  have hs := runStage_spec chk hchk c ⟨puzzle, stackPy, fl, false⟩ hw hwp hdel
+  have hs := runStage_agree chk c ⟨puzzle, stackPy, fl, false⟩ he
   simp only [Bool.false_eq_true, if_false] at hs
   have hc : evalPart .base (Flags.ofBits fl) = evalPart .base (Flags.ofBits flags) := by
     rcases hfl with rfl | rfl
@@ -309,12 +317,11 @@ theorem runStage_base (hchk : ChkWF chk) (c : SolCtx) (flags fl : Nat) (puzzle :
   exact hs
 
 /-- the scriptSig VM against `EvalScript` under the caller's flags -/
-theorem sigEval_base (hchk : ChkWF chk) (c : SolCtx) (flags : Nat)
-    (hdel : SigDelShared chk ⟨c.solutionScript, c.tx, baseFlags flags, false⟩ []) :
+theorem sigEval_base (c : SolCtx) (flags : Nat)
+    (he : EvalAgree chk ⟨c.solutionScript, c.tx, baseFlags flags, false⟩ []) :
     (evalScript (stdEnv chk) ⟨c.solutionScript, c.tx, baseFlags flags, false⟩ []).toOption.map (·.stack) =
       (Consensus.evalScript (specChk chk) [] c.solutionScript (Flags.ofBits flags) (specTx c.tx) .base).toOption := by
-  have he := evalScript_eq_all chk ⟨c.solutionScript, c.tx, baseFlags flags, false⟩
-    (by rw [strip_minimalif]; exact id) (by rw [strip_wpk]; exact id) hchk [] hdel
+  unfold EvalAgree at he
   simp only [Bool.false_eq_true, if_false] at he
   rw [evalScript_congr (specChk chk) _ _ _ (Flags.ofBits flags) _ _ (evalPart_strip flags)] at he
   exact he
@@ -336,10 +343,10 @@ theorem pushonly_sig (c : SolCtx) (flags : Nat) (out : List Bytes)
   obtain ⟨st', hl⟩ := specLoop_of_eval chk ⟨c.solutionScript, c.tx, flags, false⟩ [] out (by simpa using h)
   exact pushonly_agree chk ⟨c.solutionScript, c.tx, flags, false⟩ [] st' hl
 
-theorem mainPhase_spec (hchk : ChkWF chk) (c : SolCtx) (flags : Nat) (hdel : VerifyDelShared chk c flags) :
+theorem mainPhase_spec (hchk : ChkWF chk) (c : SolCtx) (flags : Nat) (hdel : VerifyAgree chk c flags) :
     (mainPhase (stdEnv chk) c flags).toOption.isSome =
       (specMain (specChk chk) c.solutionScript c.puzzleScript c.witnessPy (Flags.ofBits flags) (specTx c.tx)).isNone := by
-  have h1 := sigEval_base chk hchk c flags hdel.sig
+  have h1 := sigEval_base chk c flags hdel.sig
   unfold mainPhase specMain
   cases hm1 : evalScript (stdEnv chk) ⟨c.solutionScript, c.tx, baseFlags flags, false⟩ [] with
   | error e =>
@@ -357,7 +364,7 @@ theorem mainPhase_spec (hchk : ChkWF chk) (c : SolCtx) (flags : Nat) (hdel : Ver
       subst h1
       simp only []
       -- the scriptPubKey on the stack the scriptSig left
-      have h2 := runStage_base chk hchk c flags (baseFlags flags) c.puzzleScript sol.stack.reverse (Or.inl rfl)
+      have h2 := runStage_base chk c flags (baseFlags flags) c.puzzleScript sol.stack.reverse (Or.inl rfl)
         (by rw [List.reverse_reverse]; exact hdel.spk sol.stack hs1)
       rw [List.reverse_reverse] at h2
       cases hm2 : runStage (stdEnv chk) c ⟨c.puzzleScript, sol.stack.reverse, baseFlags flags, false⟩ with
@@ -411,7 +418,7 @@ theorem mainPhase_spec (hchk : ChkWF chk) (c : SolCtx) (flags : Nat) (hdel : Ver
               have hdl : (redeem :: stack2).reverse.dropLast = stack2.reverse := by simp
               simp only [hgl, hdl]
               rw [hst] at hs1
-              have h3 := runStage_base chk hchk c flags (andNot (baseFlags flags) VERIFY_P2SH) redeem stack2.reverse (Or.inr rfl)
+              have h3 := runStage_base chk c flags (andNot (baseFlags flags) VERIFY_P2SH) redeem stack2.reverse (Or.inr rfl)
                 (by rw [List.reverse_reverse]; exact hdel.redeem redeem stack2 hs1)
               rw [List.reverse_reverse] at h3
               cases hm3 : runStage (stdEnv chk) c ⟨redeem, stack2.reverse, andNot (baseFlags flags) VERIFY_P2SH, false⟩ with
@@ -450,7 +457,7 @@ theorem specMain_sigfail (sc : SChk) (scriptSig spk : Bytes) (witness : List Byt
   rfl
 
 /-- **C03.verify_eq**: `check_solution` succeeds exactly when `VerifyScript` does -/
-theorem verify_eq (hchk : ChkWF chk) (c : SolCtx) (flags : Nat) (hdel : VerifyDelShared chk c flags) :
+theorem verify_eq (hchk : ChkWF chk) (c : SolCtx) (flags : Nat) (hdel : VerifyAgree chk c flags) :
     (checkSolution (stdEnv chk) c flags).toOption.isSome =
       (verifyScript (specChk chk) c.solutionScript c.puzzleScript c.witnessPy (Flags.ofBits flags) (specTx c.tx)).isNone := by
   rw [verifyScript_eq, verifyP_main, checkSolution_eq, flag_sigpushonly]
